@@ -160,11 +160,11 @@ func drawScenario(t *rapid.T, nprocs int) *scenario {
 }
 
 type result struct {
-	viol     string
-	refused  int
-	choices  []int // chosen index at each decision
-	alts     []int // number of alternatives at each decision
-	trace    []string
+	viol    string
+	refused int
+	choices []int // chosen index at each decision
+	alts    []int // number of alternatives at each decision
+	trace   []string
 }
 
 // run executes the scenario under one schedule: follow prefix, then always the first waiting process.
